@@ -523,7 +523,7 @@ func explore(ld *loaded, h HarnessCfg, tier string, workers int, known []KnownFi
 	}
 	w.timeoutMs = h.TimeoutMs
 	if w.timeoutMs == 0 {
-		w.timeoutMs = 30000
+		w.timeoutMs = 10000
 	}
 	if h.PanicsOK {
 		w.panicsOK[h.Func] = true
